@@ -16,7 +16,7 @@ struct Lin {
     min_n: usize,
 }
 const GAMMAS: [f64; 8] = [0.0, 0.1, 0.3, 0.5, 0.7, 0.8, 0.9, 0.99];
-const LINEAR: [Lin; 8] = [
+const LINEAR: [Lin; 10] = [
     Lin { name: "Sma", mk: |n, _| Spec::Sma(echo(), n), min_n: 1 },
     Lin { name: "Ema", mk: |n, _| Spec::Ema(echo(), n), min_n: 1 },
     Lin { name: "Alma", mk: |n, _| Spec::Alma(echo(), n), min_n: 1 },
@@ -25,6 +25,10 @@ const LINEAR: [Lin; 8] = [
     Lin { name: "SuperSmoother", mk: |n, _| Spec::SuperSmoother(echo(), n), min_n: 1 },
     Lin { name: "RoofingFilter", mk: |n, p| Spec::Roofing(echo(), n, 1 + p % 6), min_n: 2 },
     Lin { name: "CyberCycle", mk: |n, _| Spec::CyberCycle(echo(), n), min_n: 3 },
+    // custom constructors: Ema::with_alpha with weight alpha/(N+1) = j/8, j = 1..15 (over-relaxed weights in (1, 2) are still a
+    // linear, stable recursion) and Alma::new_custom over the sigma / offset grid of C04
+    Lin { name: "EmaAlpha", mk: |n, p| Spec::EmaAlpha(echo(), n, (n as f64 + 1.0) * (1 + p % 15) as f64 / 8.0), min_n: 1 },
+    Lin { name: "AlmaCustom", mk: |n, p| Spec::AlmaCustom(echo(), n, [0.5, 1.0, 2.0, 4.0, 6.0, 8.0, 12.0][p % 7], [0.0, 0.25, 0.5, 0.85, 1.0][(p / 7) % 5]), min_n: 1 },
 ];
 
 fn strategy(i: usize, exact: bool) -> impl Fn(Tier) -> BoxedStrategy<Case> + Send + Sync {
@@ -183,9 +187,9 @@ fn dc_check(case: &Case) -> Verdict {
 
 pub fn clauses() -> Vec<Clause> {
     let mut v = vec![];
-    let g = "N from the view's minimum to 20 (thorough 64) with boundary bias, gamma grid for LaguerreFilter, M in 1..6 for RoofingFilter; two grammar streams x, y of 3N+16 values on the 1/8 grid, y = -x on a generated segment (so the combined stream and the filter state pass through exactly 0), a, b rational incl. 0 and negatives; three instances fed x, y and a x + b y.";
+    let g = "N from the view's minimum to 20 (thorough 64) with boundary bias, gamma grid for LaguerreFilter, M in 1..6 for RoofingFilter, Ema::with_alpha with weight alpha/(N+1) = j/8 (j = 1..15), Alma::new_custom over sigma in {0.5..12} x offset in {0..1}; two grammar streams x, y of 3N+16 values on the 1/8 grid, y = -x on a generated segment (so the combined stream and the filter state pass through exactly 0), a, b rational incl. 0 and negatives; three instances fed x, y and a x + b y.";
     for (i, lin) in LINEAR.iter().enumerate() {
-        let heavy = matches!(lin.name, "SuperSmoother" | "RoofingFilter" | "Alma");
+        let heavy = matches!(lin.name, "SuperSmoother" | "RoofingFilter" | "Alma" | "AlmaCustom");
         v.push(Clause::generated("C10", format!("C10/{}/superposition/Q", lin.name), format!("{g} Oracle: out_z = a out_x + b out_y and identical readiness at every step, exactly in Q. Non-trivial: x != y, >= 3 steps compared, >= 2 distinct combined outputs."), if heavy { 500 } else { 1200 }, 30_000, strategy(i, true), check(true)).with_shard(if heavy { 32 } else { 100 }));
         v.push(Clause::generated("C10", format!("C10/{}/superposition/f64", lin.name), format!("{g} f64 with dyadic a, b (a x + b y exact); tolerance 1e-9 (|a| max|out_x| + |b| max|out_y| + max|x,y| + 1)."), 1500, 40_000, strategy(i, false), check(false)).with_shard(500));
     }
